@@ -80,6 +80,9 @@ def r1_frame(ctx):
       continue
     ctx.instance(R)
     fresh = fresh_names(f)
+    # ids returned by the helpers that append a NEW tensor: `<..>.tensors[new_id]` is that new tensor, not an original one
+    fresh_ids = {name for name, vals in defuse.own_assignments(f.node).items()
+                 if vals and all(isinstance(v, ast.Call) and common.call_name(v).split('.')[-1] in ('add_new_activation_tensor', 'add_new_constant_tensor') for v in vals)}
     for n in common.walk_no_nested(f.node):
       tgt_list = []
       if isinstance(n, ast.Assign):
@@ -91,6 +94,8 @@ def r1_frame(ctx):
           classified += 1
           base = t.value
           is_fresh = isinstance(base, ast.Name) and base.id in fresh
+          if isinstance(base, ast.Subscript) and isinstance(base.value, ast.Attribute) and base.value.attr == 'tensors' and isinstance(base.slice, ast.Name) and base.slice.id in fresh_ids:
+            is_fresh = True
           if is_fresh:
             continue
           if isinstance(base, ast.Subscript) and isinstance(base.value, ast.Name) and base.value.id in ('model_op_codes',) and isinstance(base.slice, ast.UnaryOp):
